@@ -288,8 +288,7 @@ def concurrent_pairs(tier):
                 continue
             out.append((POP, '%s %s' % (A[ma], ca), '%s %s' % (B[mb], cb), 1))
     if tier == 'thorough':
-        out.append((POP, 'hue 120 duration 1 set "m" row 0', 'hue 240 duration 2 set "m" column 1', 2))
-        out.append((POP, 'hue 120 duration 1 set "a"', 'units raw hue 240 duration 2 set "a"', 2))
+        out.append((POP, 'set "m" row 0', 'hue 240 set "m" column 1', 2))
     return out
 
 
@@ -311,7 +310,7 @@ def run(tier, seed):
                       {'script': text, 'values': vals, 'detail': detail, 'cases': cnt})
     from . import concur
     n_pairs = len(concurrent_pairs(tier))
-    ctasks = concur.split(concurrent_pairs(tier))
+    ctasks = concur.split(concurrent_pairs(tier), 2 if tier == 'quick' else 8)
     cres = par.run_tasks(concur.pair_task, ctasks)
     cexec = sum(r['execs'] for r in cres)
     assert cexec > 20 * n_pairs
